@@ -558,3 +558,25 @@ for _p, _only in (('C01', [r'CacheWeight::add$', r'CacheWeight::delete$', r'Cach
     if _only is not None:
         PROPS[_p].setdefault('verus_only', {})['weights'] = _only
     PROPS[_p]['assumptions'] = PROPS[_p]['assumptions'] + WEIGHTS_ASSUME
+
+# rule T16 (assignment through a map guard): Store::mark_deleted and CacheWeight::update / update_weight_stats are under contract too
+PROPS['C04']['verus_only']['store'] = PROPS['C04']['verus_only']['store'] + [r'Store::mark_deleted$']
+PROPS['C02']['verus_only']['store'] = PROPS['C02']['verus_only']['store'] + [r'Store::mark_deleted$']
+PROPS['C05']['verus_only']['weights'] = PROPS['C05']['verus_only']['weights'] + [r'CacheWeight::update$']
+PROPS['C01']['verus_only']['weights'] = PROPS['C01']['verus_only']['weights'] + [r'CacheWeight::update$']
+PROPS['C16']['verus_only']['weights'] = PROPS['C16']['verus_only']['weights'] + [r'CacheWeight::update$', r'CacheWeight::update_weight_stats$']
+PROPS['C08']['verus'] = PROPS['C08']['verus'] + ['weights']
+PROPS['C08']['verus_only']['weights'] = [r'CacheWeight::update$']
+PROPS['C08']['assumptions'] = PROPS['C08']['assumptions'] + WEIGHTS_ASSUME
+
+# Pool::add is under contract too (rand's gen_range and the buffer lock are stand-ins)
+PROPS['C15']['verus_only']['pool'] = PROPS['C15']['verus_only']['pool'] + [r'Pool::add$']
+PROPS['C15']['assumptions'] = [a for a in PROPS['C15']['assumptions'] if not a.startswith('Pool::add picks a buffer')] + [
+    'rand::Rng::gen_range(a..b) returns a value in [a, b) (ASSUMED); T4: `Vec<RwLock<Buffer>>` is declared `Vec<BufferLock>` whose guard\'s `add` carries the contract proved for Buffer::add']
+
+# unit `config`: the wiring of the configuration into the parts (the sweeper gets the CONFIGURED clock, shards and tick; the admission policy
+# the configured weight limit)
+for _p, _only in (('C10', [r'Config::ttl_config$', r'TTLConfig::']), ('C09', [r'Config::ttl_config$', r'TTLConfig::']), ('C01', [r'Config::cache_weight_config$', r'CacheWeightConfig::'])):
+    PROPS[_p]['verus'] = PROPS[_p]['verus'] + ['config']
+    PROPS[_p].setdefault('verus_only', {})['config'] = _only
+    PROPS[_p]['assumptions'] = PROPS[_p]['assumptions'] + ['unit `config`: a boxed clock is identified by an uninterpreted `which()`; clone_box gives the same clock, SystemClock::boxed() the system clock']
